@@ -13,44 +13,65 @@ import (
 	sv "github.com/Oneledger/protocol/zz_sv"
 )
 
-// SV_C19_tally: one allegation request with up to 3 recorded votes against a
-// validator with an arbitrary stake, tallied at block end.
+type c19Req struct {
+	id      string
+	m       c10Cand
+	S       int64
+	yes, no int
+	bal0    *big.Int
+}
+
+// SV_C19_tally: one or two allegation requests with recorded votes against
+// validators with an arbitrary stake, tallied at block end.
 //
-// sv:bounds 1 open request against validator M; 3 possible voters (distinct addresses, as Vote() maintains), each having voted yes, no or not at all (symbolic); activeCount in 1..4; evidence options of the devnet genesis (vote share 50/100, allegation share 50/100, penalty 30/100, bounty 50/100); M's stake S (whole OLT) symbolic, 0 <= S < 2^40, held by its own stake address; M not frozen before
-// sv:outside several concurrent requests (thorough tier: 2, against different validators); other option values; votes of validators that are no longer active (the code counts every recorded vote: noted, not asserted); histories
-// sv:goal with required = ceil(active*50/100): guilty iff yes/required > 1/2, else innocent iff no/required > 1/2, else undecided; guilty implies M is frozen, its stake records (validator total, its own locked amount) drop by exactly round(S*30/100), the bounty address receives exactly that penalty * 10^18 * 50/100, and the same amount is recorded as the delayed unstake applied to the validator record in the next block; innocent/undecided changes neither stake nor bounty nor frozen status; a decided request leaves the tracker
+// sv:bounds request req1 against validator M with 3 possible voters (distinct addresses, as Vote() maintains), each having voted yes, no or not at all; optionally a second request req2 against another validator N with 2 possible voters, inserted before or after req1 in the tracker; activeCount in 1..4; evidence options of the devnet genesis (vote share 50/100, allegation share 50/100, penalty 30/100, bounty 50/100); M's stake S (whole OLT) symbolic, 0 <= S < 2^40, N's stake 1000, each held by its own stake address; nobody frozen before
+// sv:outside more than two concurrent requests; other option values; votes of validators that are no longer active (the code counts every recorded vote: noted, not asserted); histories
+// sv:goal for each request on its own votes, with required = ceil(active*50/100): guilty iff yes/required > 1/2, else innocent iff no/required > 1/2, else undecided; guilty implies the accused is frozen, its stake records (validator total, its own locked amount) drop by exactly round(S*30/100), the bounty address receives exactly that penalty * 10^18 * 50/100, and the same amount is recorded as the delayed unstake applied to the validator record in the next block; innocent/undecided changes neither stake nor bounty nor frozen status; a decided request leaves the tracker
 func SV_C19_tally() {
-	e := c10NewEnv(1, 1, 4)
-	m := e.cands[0]
+	e := c10NewEnv(2, 1, 4)
 	S := sv.Int64("stake")
 	sv.Assume(S >= 0 && S < 1<<40)
-	v := NewValidator(m.addr, m.addr, m.pub, m.pub, *balance.NewAmount(S), "m")
-	v.Power = S
-	if err := e.vs.Set(*v); err != nil {
-		sv.Unreachable("validator record")
-	}
-	if err := e.vctx.Delegators.Stake(m.addr, m.addr, *balance.NewAmount(S)); err != nil {
-		sv.Unreachable("stake record")
-	}
-	es := e.vctx.EvidenceStore
-	// the request and its votes
-	ar := evidence.NewAllegationRequest("req1", c10Candidate(5).addr, m.addr, 1, "proof")
-	yes, no := 0, 0
-	for i := 0; i < 3; i++ {
-		switch sv.Choice(fmt.Sprint("vote", i), 3) {
-		case 1:
-			ar.Votes = append(ar.Votes, &evidence.AllegationVote{Address: c10Candidate(5 + i).addr, Choice: evidence.YES})
-			yes++
-		case 2:
-			ar.Votes = append(ar.Votes, &evidence.AllegationVote{Address: c10Candidate(5 + i).addr, Choice: evidence.NO})
-			no++
+	reqs := []*c19Req{{id: "req1", m: e.cands[0], S: S}}
+	two := sv.Choice("secondRequest", 3) // 0 none, 1 inserted after, 2 inserted before
+	if two > 0 {
+		r2 := &c19Req{id: "req2", m: e.cands[1], S: 1000}
+		if two == 1 {
+			reqs = append(reqs, r2)
+		} else {
+			reqs = []*c19Req{r2, reqs[0]}
 		}
 	}
-	if err := es.SetAllegationRequest(ar); err != nil {
-		sv.Unreachable("request")
-	}
+	es := e.vctx.EvidenceStore
 	at, _ := es.GetAllegationTracker()
-	at.Requests["req1"] = true
+	for _, r := range reqs {
+		v := NewValidator(r.m.addr, r.m.addr, r.m.pub, r.m.pub, *balance.NewAmount(r.S), r.id)
+		v.Power = r.S
+		if err := e.vs.Set(*v); err != nil {
+			sv.Unreachable("validator record")
+		}
+		if err := e.vctx.Delegators.Stake(r.m.addr, r.m.addr, *balance.NewAmount(r.S)); err != nil {
+			sv.Unreachable("stake record")
+		}
+		ar := evidence.NewAllegationRequest(r.id, c10Candidate(5).addr, r.m.addr, 1, "proof")
+		nv := 3
+		if r.id == "req2" {
+			nv = 2
+		}
+		for i := 0; i < nv; i++ {
+			switch sv.Choice(fmt.Sprint(r.id, ".vote", i), 3) {
+			case 1:
+				ar.Votes = append(ar.Votes, &evidence.AllegationVote{Address: c10Candidate(5 + i).addr, Choice: evidence.YES})
+				r.yes++
+			case 2:
+				ar.Votes = append(ar.Votes, &evidence.AllegationVote{Address: c10Candidate(5 + i).addr, Choice: evidence.NO})
+				r.no++
+			}
+		}
+		if err := es.SetAllegationRequest(ar); err != nil {
+			sv.Unreachable("request")
+		}
+		at.Requests[r.id] = true
+	}
 	es.SetAllegationTracker(at)
 	e.st.Commit()
 	e.st.Commit() // version 2 = h-1
@@ -65,39 +86,44 @@ func SV_C19_tally() {
 	err := e.vs.ExecuteAllegationTracker(e.vctx, active)
 	sv.Assert(err == nil, "tally-runs")
 
-	// reference tally in exact integers
+	// reference tally in exact integers, each request on its own votes
 	required := (active*50 + 99) / 100
-	guilty := int64(yes)*100 > 50*required   // yes/required > 50/100
-	innocent := !guilty && int64(no)*100 > 50*required // no/required > 1 - 50/100
-	frozen := es.IsFrozenValidator(m.addr)
-	T, _ := e.vctx.Delegators.GetValidatorAmount(m.addr)
-	E, _ := e.vctx.Delegators.GetValidatorDelegationAmount(m.addr, m.addr)
 	bal1, _ := e.vctx.Balances.GetBalanceForCurr(bounty, &c10OLT)
 	gain := new(big.Int).Sub(bal1.Amount.BigInt(), bal0.Amount.BigInt())
+	wantGain := new(big.Int)
 	at2, _ := es.GetAllegationTracker()
-	_, open := at2.Requests["req1"]
-	if guilty {
-		sv.Assert(frozen, "guilty-validator-is-frozen")
-		// round half up of S*30/100 = floor((S*30 + 50)/100)
-		pen := (S*30 + 50) / 100
-		sv.Assert(T.BigInt().Cmp(big.NewInt(S-pen)) == 0 && E.BigInt().Cmp(big.NewInt(S-pen)) == 0, "stake-reduced-by-exactly-the-configured-percentage")
-		wantBounty := new(big.Int).Mul(big.NewInt(pen), new(big.Int).Exp(big.NewInt(10), big.NewInt(18), nil))
-		wantBounty.Mul(wantBounty, big.NewInt(50)).Div(wantBounty, big.NewInt(100))
-		sv.Assert(gain.Cmp(wantBounty) == 0, "bounty-receives-exactly-its-share-of-the-penalty")
-		// the validator record follows one block later through the delayed unstake
-		e.vs.lastHeight = height + 1
-		du, derr := e.vs.GetDelayUnstake(m.addr)
-		sv.Assert(derr == nil && du.Amount.BigInt().Cmp(big.NewInt(pen)) == 0, "delayed-unstake-records-the-penalty")
-		sv.Assert(!open, "decided-request-leaves-the-tracker")
-		sv.Cover(true, "guilty")
-		sv.Observe("penalty", pen)
-	} else {
-		sv.Assert(!frozen, "not-guilty-means-not-frozen")
-		sv.Assert(T.BigInt().Cmp(big.NewInt(S)) == 0 && E.BigInt().Cmp(big.NewInt(S)) == 0 && gain.Sign() == 0, "not-guilty-changes-no-stake-and-pays-no-bounty")
-		sv.Assert(open == !innocent, "request-stays-open-exactly-while-undecided")
-		sv.Cover(innocent, "innocent")
-		sv.Cover(!innocent, "undecided")
+	for _, r := range reqs {
+		guilty := int64(r.yes)*100 > 50*required             // yes/required > 50/100
+		innocent := !guilty && int64(r.no)*100 > 50*required // no/required > 1 - 50/100
+		frozen := es.IsFrozenValidator(r.m.addr)
+		T, _ := e.vctx.Delegators.GetValidatorAmount(r.m.addr)
+		E, _ := e.vctx.Delegators.GetValidatorDelegationAmount(r.m.addr, r.m.addr)
+		_, open := at2.Requests[r.id]
+		if guilty {
+			sv.Assert(frozen, "guilty-validator-is-frozen")
+			// round half up of S*30/100 = floor((S*30 + 50)/100)
+			pen := (r.S*30 + 50) / 100
+			sv.Assert(T.BigInt().Cmp(big.NewInt(r.S-pen)) == 0 && E.BigInt().Cmp(big.NewInt(r.S-pen)) == 0, "stake-reduced-by-exactly-the-configured-percentage")
+			w := new(big.Int).Mul(big.NewInt(pen), new(big.Int).Exp(big.NewInt(10), big.NewInt(18), nil))
+			w.Mul(w, big.NewInt(50)).Div(w, big.NewInt(100))
+			wantGain.Add(wantGain, w)
+			// the validator record follows one block later through the delayed unstake
+			e.vs.lastHeight = height + 1
+			du, derr := e.vs.GetDelayUnstake(r.m.addr)
+			e.vs.lastHeight = height
+			sv.Assert(derr == nil && du.Amount.BigInt().Cmp(big.NewInt(pen)) == 0, "delayed-unstake-records-the-penalty")
+			sv.Assert(!open, "decided-request-leaves-the-tracker")
+			sv.Cover(true, "guilty:"+r.id)
+			sv.Observe("penalty:"+r.id, pen)
+		} else {
+			sv.Assert(!frozen, "not-guilty-means-not-frozen")
+			sv.Assert(T.BigInt().Cmp(big.NewInt(r.S)) == 0 && E.BigInt().Cmp(big.NewInt(r.S)) == 0, "not-guilty-changes-no-stake")
+			sv.Assert(open == !innocent, "request-stays-open-exactly-while-undecided")
+			sv.Cover(innocent, "innocent:"+r.id)
+			sv.Cover(!innocent, "undecided:"+r.id)
+		}
+		sv.Observe("guilty:"+r.id, guilty)
+		sv.Observe("frozen:"+r.id, frozen)
 	}
-	sv.Observe("guilty", guilty)
-	sv.Observe("frozen", frozen)
+	sv.Assert(gain.Cmp(wantGain) == 0, "bounty-receives-exactly-its-share-of-the-penalties")
 }
